@@ -23,7 +23,7 @@ RULE = ("per module a problem generator over its problem format: nurikabe (0, -1
 ASSUMPTIONS = ["refs/pzpr.py implements the pzpr body grammar (number16, 4cell, circle, arrownumber16, border, room numbers, compass) as documented "
                "in DESIGN.md Appendix B", "pzpr yajilin numbers >= 16 use the direction+5 two-digit form"]
 MODULES = ["nurikabe", "masyu", "slitherlink", "sudoku", "nurimisaki", "yajilin", "heyawake", "lits", "norinori", "compass", "star_battle", "aquarium"]
-REQUIRED = ["c16.roundtrip_checked", "c16.pzpr_checked", "c16.head_checked", "c16.legacy_checked", "c16.nonsquare", "c16.recorded_urls", "c16.encode_repeated", "c16.decode_repeated"] + ["c16.mod." + m for m in MODULES]
+REQUIRED = ["c16.roundtrip_checked", "c16.pzpr_checked", "c16.head_checked", "c16.legacy_checked", "c16.nonsquare", "c16.recorded_urls", "c16.encode_repeated", "c16.decode_repeated", "c16.heyawake_rect_form"] + ["c16.mod." + m for m in MODULES]
 
 
 def plan(tier):
@@ -244,7 +244,23 @@ def rooms_case(ctx, rng, mod):
 
 def heyawake_case(ctx, rng):
     h, w = shape(rng, 1, 10)
-    rooms = K.random_rooms(h, w, rng)
+    rects = None
+    if rng.random() < 0.3:
+        # rectangular rooms, also encoded through the module's rectangular problem form [(y0, x0, y1, x1, clue)] in arbitrary order
+        rects = [(0, 0, h, w)]
+        for _ in range(rng.randint(0, 6)):
+            k = rng.randrange(len(rects))
+            y0, x0, y1, x1 = rects[k]
+            if (y1 - y0 > 1) and (x1 - x0 == 1 or rng.random() < 0.5):
+                c = rng.randint(y0 + 1, y1 - 1)
+                rects[k:k + 1] = [(y0, x0, c, x1), (c, x0, y1, x1)]
+            elif x1 - x0 > 1:
+                c = rng.randint(x0 + 1, x1 - 1)
+                rects[k:k + 1] = [(y0, x0, y1, c), (y0, c, y1, x1)]
+        rng.shuffle(rects)
+        rooms = [[(y, x) for y in range(y0, y1) for x in range(x0, x1)] for y0, x0, y1, x1 in rects]
+    else:
+        rooms = K.random_rooms(h, w, rng)
     clues = [rng.choice([-1, -1, 0, 1, 2, 5, 15, 16, 255, 256, 300]) for _ in rooms]
     ctx.case(["heyawake", h, w, sorted(zip(K.canon_rooms(rooms), clues))], nontrivial=len(rooms) > 1)
     j = Judge(ctx, "heyawake", (rooms, clues), h, w)
@@ -252,6 +268,11 @@ def heyawake_case(ctx, rng):
     if not ok:
         return
     want = sorted((sorted(r), c) for r, c in zip(rooms, clues))
+    if rects is not None:
+        ok2, url2 = j.call("encode", heyawake.serialize_heyawake, h, w, [r + (c,) for r, c in zip(rects, clues)])
+        ctx.count("c16.heyawake_rect_form")
+        if ok2:
+            j.same("rect-form", url2, url, url)  # both entry points describe the same problem: same text
     ok, back = j.call("decode", heyawake.deserialize_heyawake, url)
     if ok:
         if back is None or len(back) != 3:
